@@ -9,13 +9,19 @@ Case kinds
   frame : a (foreign / damaged) LLDP frame -> what the real PacketIn handler does with it vs model `recover`
   upd   : one real `_update_tree()` from an arbitrary `_prev`, optionally with the k-th `con.send` raising -> port_mods IN ORDER and
           `_prev` afterwards vs model `updateTreeF`
+  live  : a physical topology + a history of up / down / run(dt) / cut / mend / mute / pstate ops in which NOTHING is called by hand:
+          the timers the components create (the recurring expiry Timer of Discovery.__init__, LLDPSender's send cycle, spanning_tree's
+          delayed port checks) are the real recoco Timers, run by the real Scheduler.cycle() on a virtual hub (clock + wake list); the
+          probes LLDPSender sends travel over the cables of the topology and come back as PacketIns.  Model: `runT` (the expiry timer
+          under the contract of recoco.Timer.run); oracle: links of a silent switch are withdrawn, live links are discovered and stay
 """
-import os, json, itertools, copy
+import os, io, json, math, heapq, itertools, copy, contextlib, inspect, select as _select
 import common, poxenv
 from common import Check
 
 OFPP_MAX = 0xff00
 TIMEOUT_MS = 10000
+PERIOD_MS = 5000                 # Discovery._timeout_check_period: the expiry timer's interval
 
 # -- opt-in for validation runs: entries proposed for known_findings.json (the file itself is not edited by this module)
 _extra = os.environ.get("C19_PROPOSED_FINDINGS")
@@ -30,13 +36,81 @@ if _extra:
     common.Findings.__init__ = _init
 
 
-class StubTimer:
-    """stands in for pox.lib.recoco.Timer inside discovery / spanning_tree: records, never runs anything"""
-    made = []
-    def __init__(self, t, cb, *a, **kw):
-        self.t, self.cb, self.a, self.kw = t, cb, a, kw
-        StubTimer.made.append(self)
-    def cancel(self): pass
+def make_rec_timer(base, made):
+    """the repository's own recoco.Timer, recording how it is constructed (nothing else changes: it is started, scheduled, run and
+    cancelled by the real code)"""
+    class Timer(base):
+        def __init__(self, *a, **kw):
+            made.append((self, a, dict(kw)))
+            base.__init__(self, *a, **kw)
+    Timer.__qualname__ = "Timer"
+    return Timer
+
+
+def timer_args(base, a, kw):
+    """(interval, callback, recurring, selfStoppable, started, absoluteTime) of a recorded construction, whatever mix of positional
+    and keyword arguments was used"""
+    try:
+        b = inspect.signature(base.__init__).bind(None, *a, **kw); b.apply_defaults()
+        g = b.arguments
+        return {"t": g.get("timeToWake"), "cb": g.get("callback"), "recurring": bool(g.get("recurring")),
+                "selfStoppable": bool(g.get("selfStoppable", True)), "started": bool(g.get("started", True)),
+                "absolute": bool(g.get("absoluteTime"))}
+    except Exception:
+        return {"t": a[0] if a else kw.get("timeToWake"), "cb": a[1] if len(a) > 1 else kw.get("callback"), "recurring": bool(kw.get("recurring")),
+                "selfStoppable": True, "started": True, "absolute": False}
+
+
+class VHub:
+    """stands in for recoco.SelectHub under the real Scheduler: the same entry points (registerTimer / registerSelect / _return / idle /
+    break_idle / _cycle), time is the virtual clock.  Wake-ups are kept in a heap together with the harness's own timed happenings
+    (frames in flight); at equal times tasks wake first, in the order they went to sleep.  Descriptors a task selects on are polled
+    for real with a zero timeout (level-triggered), so core.callLater keeps working."""
+    def __init__(self, sched):
+        self.sched, self.heap, self.seq, self.io = sched, [], 0, []
+    def clear(self):
+        del self.heap[:]; del self.io[:]
+    def idle(self): pass
+    def break_idle(self): pass
+    def _cycle(self): pass
+    def registerTimer(self, task, timeToWake, timeIsAbsolute=False):
+        return self.registerSelect(task, None, None, None, timeToWake, timeIsAbsolute)
+    def registerSelect(self, task, rlist=None, wlist=None, xlist=None, timeout=None, timeIsAbsolute=False):
+        if timeout is not None and not timeIsAbsolute: timeout += poxenv.clock()
+        entry = [task, list(rlist or []), list(wlist or []), list(xlist or []), timeout]
+        if entry[1] or entry[2] or entry[3]: self.io.append(entry)
+        if timeout is not None:
+            self.seq += 1
+            heapq.heappush(self.heap, (timeout, 0, self.seq, entry))
+    def _return(self, task, rv):
+        task.rv = rv
+        self.sched.fast_schedule(task)
+    def at(self, when, fn):
+        """a happening of the harness's own (not a task): fn() at virtual time `when`"""
+        self.seq += 1
+        heapq.heappush(self.heap, (when, 1, self.seq, fn))
+    def poll_io(self):
+        woke = False
+        for entry in list(self.io):
+            if entry[0] is None: continue
+            try:
+                r, w, x = _select.select(entry[1], entry[2], entry[3], 0)
+            except Exception:
+                continue
+            if r or w or x:
+                task, entry[0] = entry[0], None
+                self.io.remove(entry)
+                self._return(task, (r, w, x)); woke = True
+        return woke
+    def next_due(self):
+        while self.heap and self.heap[0][1] == 0 and self.heap[0][3][0] is None: heapq.heappop(self.heap)
+        return self.heap[0][0] if self.heap else None
+    def pop(self):
+        when, kind, _, what = heapq.heappop(self.heap)
+        if kind == 1: return when, what, None
+        task, what[0] = what[0], None
+        if what in self.io: self.io.remove(what)
+        return when, None, task
 
 
 class StubCon:
@@ -120,6 +194,7 @@ class C19(Check):
     theorems = ["Pox.C19.cull_loop_is_closed_form", "Pox.C19.calc_raises_iff_selfloop", "Pox.C19.tree_is_forest", "Pox.C19.tree_edge_is_bridge",
                 "Pox.C19.calc_terminates", "Pox.C19.link_events", "Pox.C19.event_iff_change", "Pox.C19.in_adjacency_iff_last_added",
                 "Pox.C19.adjacency_exact", "Pox.C19.adjacency_ends_connected", "Pox.C19.down_withdraws", "Pox.C19.sweep_bounds_age",
+                "Pox.C19.timer_never_stops", "Pox.C19.timer_withdraws", "Pox.C19.timed_is_history", "Pox.C19.timed_link_events",
                 "Pox.C19.flood_ports", "Pox.C19.flood_keeps", "Pox.C19.flood_ports_partial", "Pox.C19.flood_ports_forest",
                 "Pox.C19.cable_floods_iff_tree_edge", "Pox.C19.reach_unique",
                 "Pox.C19.port_mods_are_changes", "Pox.C19.send_failure_recovery", "Pox.C19.bits_are_prev", "Pox.C19.flood_bits",
@@ -135,14 +210,20 @@ class C19(Check):
     trusted_base = ["models Model/STree.lean and Model/Discovery.lean hand-written from spanning_tree.py / discovery.py / lldp.py; tied by this correspondence run",
                     "the culling loop of _calc_spanning_tree is modelled as written (dict-of-dicts as one insertion-ordered association list) and proved equal to the closed form "
                     "the other proofs use (cull_loop_is_closed_form); the iteration order of the `switches` set is an oracle argument fed from the harness",
-                    "harness: stub connections / stub Timer / virtual clock; the union-find forest oracle"]
+                    "the expiry timer is modelled as the contract of recoco.Timer.run (sleep until due, next = wake time + interval, a self-stoppable timer whose callback "
+                    "returns False ends) applied to what _expire_links returns; recoco's Scheduler / Sleep themselves are C06's subject",
+                    "harness: stub connections, virtual clock; in `live` cases the real Scheduler.cycle() and the real recoco Timers on a virtual hub (wake list on the "
+                    "virtual clock, tasks before frames at equal times), cables that deliver a probe at the next multiple of 1/8 s; the union-find forest oracle"]
     assumptions = ["port state (carrier up / down, PortStatus) is no input of Discovery's adjacency or of _update_tree: `pstate` ops of a history flip OFPPS_LINK_DOWN in the "
                    "controller's port table and raise the real PortStatus event, and are no-ops in the model; the flood bit is configuration and must be right whatever the carrier",
-                   "LLDPSender's schedule (add_port / del_port / _timer_handler: which ports are probed, and when) is neither modelled nor anchored: probes are ops of the "
-                   "history, so 'the adjacency contains every live link' rests on the environment delivering a probe over every live link at least once per timeout; "
-                   "only create_packet_out / _create_discovery_packet (the probe's content) are modelled",
-                   "expiry sweeps are ops too: the recurring Timer(_timeout_check_period, _expire_links) is replaced by a stub, so 'a silent link is withdrawn within "
-                   "timeout + check period' assumes the Timer fires; sweep_bounds_age says what one sweep guarantees",
+                   "LLDPSender's schedule (add_port / del_port / _set_timer / _timer_handler: which ports are probed, and when) is not modelled: in `hist` cases probes are "
+                   "ops of the history; in `live` cases the real sender runs on its real Timer and the ORACLE alone demands the outcome (every working cable direction "
+                   "is in the adjacency once the network has been left alone for link timeout + check period, and stays there); the model takes the probe arrivals of "
+                   "the run as given.  Only create_packet_out / _create_discovery_packet (the probe's content) are modelled",
+                   "`hist` cases call the expiry sweep by hand (`sweep` ops; sweep_bounds_age says what one sweep guarantees); `live` cases never do: the recurring "
+                   "Timer(_timeout_check_period, _expire_links) made by Discovery.__init__ runs under the real Timer.run, and the model (`runT`, theorems timer_never_stops / "
+                   "timer_withdraws) fires its own sweeps from the Timer contract -- under an ideal clock: a timer wakes exactly when due; at most 75 ports (no random chunking "
+                   "of the send cycle)",
                    "_hold_down and _noflood_by_default are off (their defaults); in histories con.send never raises (the `except: _prev.clear()` path is modelled and compared for single _update_tree() calls: kind upd, theorem send_failure_recovery)",
                    "a port's NO_FLOOD bit is what the last port_mod on the current connection said; a (re)connecting switch starts with flooding enabled on every port",
                    "cables are point to point (a port is an end of at most one cable) and join two different switches; a switch with two of its own ports cabled together makes "
@@ -154,7 +235,9 @@ class C19(Check):
                  "_calc_spanning_tree, Discovery, LLDPSender, spanning_tree handlers and the LLDP packet classes + independent union-find oracle")
     level_text = ("Theorems: for EVERY adjacency without self-links the tree of _calc_spanning_tree (culling + traversal as written) is a forest (leaf sequence; every edge a bridge), "
                   "uses only bidirectional links and connects exactly what those connect, within 2|switches| iterations; for EVERY history the LinkEvent stream alternates per link and the "
-                  "adjacency is exactly the links with a recent accepted probe and no disconnect since; after every change the repaired handlers leave exactly the tree ports and the "
+                  "adjacency is exactly the links with a recent accepted probe and no disconnect since; for EVERY timer-driven history (sweeps fired by the recurring Timer under the contract of "
+                  "recoco.Timer.run, nothing called by hand) the timer never stops, no link of the adjacency is older than link timeout + check period, and the run is a history "
+                  "in the above sense (timed_is_history); after every change the repaired handlers leave exactly the tree ports and the "
                   "host-facing ports of every tree switch flooding; the probe round-trips for every dpid < 2^64 and port < 2^16.  Defect witnesses (decide) for the pinned code.")
     level_note = ("The model has three variants of the handlers: `pinned` (before D20 / C19-1), `fixed` (with them: /repo today), `full` (plus the repair "
                   "fixes/C19-2_update_tree_all_switches.diff: _update_tree goes through every connected switch).  The harness probes which one the code under test "
@@ -163,17 +246,21 @@ class C19(Check):
                   "(flood_ports_full_repaired, flood_keeps).  flood_bits / bits_are_prev / port_mods_are_changes tie _prev to the NO_FLOOD bits on the switches, given that "
                   "every port_mod is applied.  Trusted: Lean kernel, axioms propext/Classical.choice/Quot.sound, the hand-written models, this harness; the theorems are "
                   "about the models, the runs below are what connects them to the code.")
-    rule = ("calcseq: 2..5 adjacencies through one process in a row (other dict order, a parallel cable gone, a cable re-plugged, the same again); upd: one or two _update_tree() calls from an arbitrary _prev with a send lost at any position; frame corpus: all 256 chassis / port subtypes, all TLV types, declared lengths 0..40 and 255..511; portsweep: sender -> receiver for every port number built from parser-relevant byte classes + 0..512 + 0xfe00..0xffff (thorough: all 65536); hist: port numbers from the whole legal range (0x3030..0x3939, 255/256, 0xfeff ...), carrier flaps shorter than the link timeout interleaved with tree changes; hist corpus: discovery interrupted after every prefix by every switch rebooting, dpid 0, mixed sweeps.  calc (dict order shuffled per case): 2 and 3 switches exhaustive over all 13 cable options per pair (none / 1 / 2 parallel cables, each bidirectional or one-way "
+    rule = ("live: timer-driven runs (nothing called by hand; real recoco Timers for the expiry sweep, the send cycle, the delayed port checks; probes cross the cables): corpus = quiet "
+            "ticks first, then a cable / one direction / a wedged switch goes silent without any disconnect, two silent failures in a row, long quiet runs, reboots and carrier flaps "
+            "between ticks, cuts right after and right before a tick; random: 2..5 switches, 3..12 ops of run(0.125..26 s) / cut / mend / mute / down / up / reboot / carrier flap, "
+            "always ending with > 15 s of quiet.  calcseq: 2..5 adjacencies through one process in a row (other dict order, a parallel cable gone, a cable re-plugged, the same again); upd: one or two _update_tree() calls from an arbitrary _prev with a send lost at any position; frame corpus: all 256 chassis / port subtypes, all TLV types, declared lengths 0..40 and 255..511; portsweep: sender -> receiver for every port number built from parser-relevant byte classes + 0..512 + 0xfe00..0xffff (thorough: all 65536); hist: port numbers from the whole legal range (0x3030..0x3939, 255/256, 0xfeff ...), carrier flaps shorter than the link timeout interleaved with tree changes; hist corpus: discovery interrupted after every prefix by every switch rebooting, dpid 0, mixed sweeps.  calc (dict order shuffled per case): 2 and 3 switches exhaustive over all 13 cable options per pair (none / 1 / 2 parallel cables, each bidirectional or one-way "
             "either way); 4 switches exhaustive over 5 options per pair (5^6; thorough: 6 options, 6^6, + 100000 sampled over all 13); 5 switches (thorough) exhaustive over {none, bidirectional, "
             "one-way} (3^10) + 60000 sampled over all 13; random multigraphs on 5..12 switches; arbitrary link lists with shared / crossed ports.  hist: random topologies of 2..6 switches with redundant / parallel / one-way "
             "cables and 10..60 ops.  codec: boundary x boundary and random dpids/ports.  frame: damaged and foreign LLDP.  "
-            "non-trivial = calc with a non-empty tree, hist with >=1 removal event, codec/frame always")
+            "non-trivial = calc with a non-empty tree, hist / live with >=1 removal event, codec/frame always")
     coverage_cases = 10 ** 9          # trace every case (the tracer only follows the anchored files)
 
     def extra_evidence(self):
         return {"variant_detected": self.variant, "variant_note": getattr(self, "variant_note", ""),
                 "kinds_skipped_because_an_entry_point_was_not_found": dict(self.skipped),
                 "prev_shape": self._prev_shape(),
+                "timers_made_at_construction [interval, callback, recurring, selfStoppable, started]": self.ctor_timer_info,
                 "upd_cases_without_prev_comparison": getattr(self, "_skipped_upd", 0),
                 "note_prev": "spanning_tree._prev is read / preset only by the `upd` kind, through an adapter for the nested and the flat {(dpid, port): b} shape; "
                              "histories observe flood state only through the port_mods sent and a harness-owned per-switch port config that a reconnect resets",
@@ -184,21 +271,46 @@ class C19(Check):
     # ------------------------------------------------------------------ setup
     def setup(self):
         core = poxenv.boot()
+        # Timers: the repository's own class, recording its constructions, in every namespace a component could take it from
+        import pox.lib.recoco as rpk
+        import pox.lib.recoco.recoco as rmod
+        self.rmod, self.base_timer, self.timers_made = rmod, rmod.Timer, []
+        self.RT = make_rec_timer(self.base_timer, self.timers_made)
+        # (not in recoco.py itself: Timer.start says super(Timer, self) with its own module's global)
+        if getattr(rpk, "Timer", None) is self.base_timer: rpk.Timer = self.RT
         import pox.openflow as ofmod
         import pox.openflow.libopenflow_01 as of
         import pox.openflow.discovery as disc
-        disc.Timer = StubTimer                      # Discovery.__init__ and LLDPSender._set_timer create Timers: record, never run
         import pox.openflow.spanning_tree as st
-        st.Timer = StubTimer
+        for mod in (disc, st):
+            if getattr(mod, "Timer", None) is self.base_timer: mod.Timer = self.RT
+        # the core's scheduler (never started, no thread) is the default scheduler; its hub is replaced by the virtual one, so whatever
+        # the components schedule -- Timer, core.callDelayed, core.callLater -- runs in Scheduler.cycle() when a `live` case turns the crank
+        self.sched = core.scheduler
+        if getattr(rmod, "defaultScheduler", None) is not self.sched: rmod.defaultScheduler = self.sched
+        self.hub = VHub(self.sched)
+        self.sched._selectHub = self.hub
         import pox.lib.packet as pkt
         self.core, self.ofmod, self.of, self.disc, self.st, self.pkt = core, ofmod, of, disc, st, pkt
+        poxenv.clock.now = 1000.0
         if not core.hasComponent("openflow_discovery"):
             core.registerNew(disc.Discovery)
             st.launch()
         self.D = core.openflow_discovery
-        # the expiry sweep = the recurring timer Discovery set up for one of its own methods (looked up by behaviour, the name is a fallback)
-        cbs = [t.cb for t in StubTimer.made if t.kw.get("recurring") and getattr(t.cb, "__self__", None) is self.D]
-        self.expire_cb = cbs[0] if cbs else getattr(self.D, "_expire_links", None)
+        # what the components set going when they are constructed: every `live` case starts with these timers freshly made (no other
+        # kind of case ever turns the scheduler's crank)
+        self.ctor_timers = [(a, kw) for (_, a, kw) in self.timers_made]
+        self.ctor_timer_info = []
+        for a, kw in self.ctor_timers:
+            g = timer_args(self.base_timer, a, kw)
+            self.ctor_timer_info.append([g["t"], getattr(g["cb"], "__name__", str(g["cb"])), g["recurring"], g["selfStoppable"], g["started"]])
+        # the expiry sweep = the recurring timer Discovery set up for one of its own methods (looked up by behaviour, the name is a fallback);
+        # only the `hist` kind calls it by hand (`sweep` ops); the `live` kind lets the timer do it
+        cbs = [g for g in (timer_args(self.base_timer, a, kw) for a, kw in self.ctor_timers)
+               if g["recurring"] and getattr(g["cb"], "__self__", None) is self.D]
+        self.expire_cb = cbs[0]["cb"] if cbs else getattr(self.D, "_expire_links", None)
+        # ... and even by hand it is called the way its Timer would: a self-stoppable recurring timer whose callback returns False is over
+        self.expire_selfstop = bool(cbs and cbs[0]["selfStoppable"])
         self.f_calc = getattr(st, "_calc_spanning_tree", None)
         self.f_update = getattr(st, "_update_tree", None)
         self.skipped = {}
@@ -286,7 +398,13 @@ class C19(Check):
         self.core.openflow._connections = self.real_conns
         self.real_conns.clear()
         poxenv.clock.now = 1000.0
-        del self._events[:]; del self._orders[:]; del StubTimer.made[:]
+        del self._events[:]; del self._orders[:]
+        # the scheduler: nothing left over from the last case
+        try: self.sched._ready.clear()
+        except AttributeError: pass
+        if getattr(self.sched, "_callLaterTask", None) is not None: self.sched._callLaterTask = None
+        self.hub.clear()
+        del self.timers_made[:]
 
     # ------------------------------------------------------------------ generators
     @staticmethod
@@ -341,8 +459,81 @@ class C19(Check):
         for i in range(0, len(ports), 256):
             cases.append({"kind": "portsweep", "dpid": [1, 0x2a, 2 ** 63 + 1][(i // 256) % 3], "ports": ports[i:i + 256]})
         cases += self._hist_corpus()
+        cases += self._live_corpus()
         cases += self._frame_corpus()
         return cases
+
+    def _live_corpus(self):
+        """timer-driven runs: quiet expiry ticks first (nothing to expire), then links go silent without any switch disconnecting"""
+        T = lambda *cables: [list(map(list, c)) for c in cables]
+        R = lambda dt: {"k": "run", "dt": dt}
+        U = lambda *ds: [{"k": "up", "dpid": d} for d in ds]
+        CUT = lambda i, dr=2: {"k": "cut", "i": i, "dir": dr}
+        MEND = lambda i, dr=2: {"k": "mend", "i": i, "dir": dr}
+        two = {"switches": {"1": [1, 2], "2": [1, 2]}, "cables": T(((1, 1), (2, 1)))}
+        tri = {"switches": {"1": [1, 2, 3], "2": [1, 2, 3], "3": [1, 2, 3, 65534]},
+               "cables": T(((1, 1), (2, 1)), ((2, 2), (3, 1)), ((1, 2), (3, 2)))}
+        par = {"switches": {"1": [1, 2, 3], "2": [1, 2, 3]}, "cables": T(((1, 1), (2, 1)), ((1, 2), (2, 2)))}
+        big = {"switches": {"0": [1, 255, 256], "257": [0xfeff, 12849, 7], "300": [1, 2]},
+               "cables": T(((0, 255), (257, 0xfeff)), ((257, 12849), (300, 1)), ((0, 256), (300, 2)))}
+        out = []
+        def add(topo, ops): out.append({"kind": "live", "topo": topo, "ops": ops})
+        # a quiet quarter of a minute (three expiry ticks find nothing), then the cable dies silently: both links must go, the ports flood again
+        add(two, U(1, 2) + [R(17000), CUT(0), R(26000)])
+        # ... after one quiet tick only; after none (cut before the first tick); one direction only
+        add(two, U(1, 2) + [R(6000), CUT(0), R(16000), R(5000)])
+        add(two, U(1, 2) + [R(3000), CUT(0), R(21000)])
+        add(two, U(1, 2) + [R(12000), CUT(0, 0), R(18000), R(8000)])
+        # two silent failures one after the other: the tick that withdrew the first is followed by quiet ticks, then the second must go too
+        add(par, U(1, 2) + [R(8000), CUT(0), R(21000), R(9000), CUT(1), R(16000), MEND(0), R(16000), R(7000)])
+        # a silent (wedged) switch that stays connected: the triangle loses switch 2's links, 1-3 carries the flood; it comes back
+        add(tri, U(1, 2, 3) + [R(11000), {"k": "mute", "dpid": 2}, R(16000), R(6000), {"k": "unmute", "dpid": 2}, R(16000)])
+        # D20 through the timers: the tree link 1-2 goes silent, 2-3 (blocked so far) must open when the sweep withdraws it
+        add(tri, U(1, 2, 3) + [R(12000), CUT(0), R(16000), MEND(0), R(17000)])
+        # nothing happens for a long time: every link is found within the first cycle and stays (the send cycle and the expiry ticks go on)
+        add(tri, U(1, 2, 3) + [R(7000), R(9000), R(15000), R(15000), R(30000), R(15125)])
+        add(big, U(0, 257, 300) + [R(16000), R(16000), CUT(1), R(20000), R(16000)])
+        # switches arrive one by one between ticks; one reboots, one leaves; what is left is still looked after
+        add(tri, U(1) + [R(2500)] + U(2) + [R(4000)] + U(3) + [R(16000), {"k": "down", "dpid": 3}, R(1000)] + U(3) +
+            [R(16000), {"k": "down", "dpid": 1}, R(16000), CUT(1), R(16000)])
+        # carrier flap (port status) while quiet: the extra probe it triggers restarts the send cycle; later a silent failure
+        add(tri, U(1, 2, 3) + [R(9000), {"k": "pstate", "dpid": 2, "port": 2, "down": True}, R(2000), {"k": "pstate", "dpid": 2, "port": 2, "down": False},
+                               R(16000), CUT(2, 1), R(16000), R(5000)])
+        # expiry boundary through the timer: the last probe over 1.1->2.1 arrives at 5 s sharp?  cut right after a tick, and right before one
+        add(two, U(1, 2) + [R(5000), CUT(0), R(10000), R(5000), R(125)])
+        add(two, U(1, 2) + [R(4875), CUT(0), R(10125), R(4875), R(125)])
+        return out
+
+    def _live_history(self, rng, nops=None):
+        topo = self._topology(rng, rng.choice([2, 2, 3, 3, 4, 5]))
+        dpids = [int(d) for d in topo["switches"]]
+        ncab = len(topo["cables"])
+        R = lambda: {"k": "run", "dt": 125 * rng.choice([1, 8, 20, 39, 40, 41, 56, 80, 96, 120, 128, 136, 168, 208])}
+        ops, up = [], set()
+        for d in rng.sample(dpids, len(dpids)):
+            ops.append({"k": "up", "dpid": d}); up.add(d)
+            if rng.random() < 0.3: ops.append(R())
+        if rng.random() < 0.8: ops.append({"k": "run", "dt": 125 * rng.choice([41, 48, 88, 136])})       # quiet ticks first
+        for _ in range(nops or rng.choice([3, 5, 8, 12])):
+            r = rng.random()
+            if r < 0.40: ops.append(R())
+            elif r < 0.58 and ncab: ops.append({"k": "cut", "i": rng.randrange(ncab), "dir": rng.choice([0, 1, 2, 2])})
+            elif r < 0.66 and ncab: ops.append({"k": "mend", "i": rng.randrange(ncab), "dir": 2})
+            elif r < 0.74 and up: ops.append({"k": rng.choice(["mute", "mute", "unmute"]), "dpid": rng.choice(sorted(up))})
+            elif r < 0.80 and up:
+                d = rng.choice(sorted(up)); up.discard(d); ops.append({"k": "down", "dpid": d})
+            elif r < 0.86 and up:
+                d = rng.choice(sorted(up))
+                ops += [{"k": "down", "dpid": d}, {"k": "run", "dt": 125 * rng.choice([1, 8, 16])}, {"k": "up", "dpid": d}]
+            elif r < 0.92:
+                cand = [d for d in dpids if d not in up]
+                if cand:
+                    d = rng.choice(cand); up.add(d); ops.append({"k": "up", "dpid": d})
+            elif ncab:
+                end = rng.choice(topo["cables"][rng.randrange(ncab)])
+                ops += [{"k": "pstate", "dpid": end[0], "port": end[1], "down": True}, R(), {"k": "pstate", "dpid": end[0], "port": end[1], "down": False}]
+        ops += [{"k": "run", "dt": 125 * rng.choice([128, 136, 168])}, {"k": "run", "dt": 125 * rng.choice([24, 56, 120])}]
+        return {"kind": "live", "topo": topo, "ops": ops}
 
     def _calcseq_corpus(self, rng, n=40):
         """one process, several adjacencies in a row: the same links in another dict order, one of two parallel cables gone, the ports
@@ -661,6 +852,8 @@ class C19(Check):
                 yield self._graph_case(4, [rng.choice(CABLE_OPTS) for _ in range(6)], rng)
         for _ in range(1200 if quick else 15000):
             yield self._history(rng)
+        for _ in range(120 if quick else 800):
+            yield self._live_history(rng)
         # single _update_tree() calls from an arbitrary _prev, with and without a con.send that raises; port_mods compared IN ORDER
         for _ in range(400 if quick else 6000):
             n = rng.choice([2, 3, 4, 5])
@@ -688,6 +881,7 @@ class C19(Check):
     def search_cases(self, rng, tier):
         while True:
             yield self._history(rng, nops=rng.choice([8, 12, 20, 40]))
+            yield self._live_history(rng, nops=rng.choice([2, 4, 6]))
 
     # ------------------------------------------------------------------ implementation side
     def _set_order(self):
@@ -810,6 +1004,10 @@ class C19(Check):
                 if d2 not in up or d1 not in sw or p1 not in sw[d1] or p2 not in sw.get(d2, []): continue
             elif k == "pstate":
                 if op["dpid"] not in up or op["port"] not in sw[op["dpid"]]: continue
+            elif k in ("mute", "unmute"):
+                if op["dpid"] not in up: continue
+            elif k in ("cut", "mend"):
+                if not (0 <= op["i"] < len(case["topo"]["cables"])): continue
             out.append(op)
         return out
 
@@ -817,7 +1015,7 @@ class C19(Check):
         of, core, D = self.of, self.core, self.D
         sw = {int(d): ps for d, ps in case["topo"]["switches"].items()}
         cons, frames, bits = {}, {}, {}
-        steps = []
+        steps, timer_alive = [], [True]
         def drain(con):
             mods = []
             for raw in con.sent:
@@ -859,7 +1057,7 @@ class C19(Check):
                 pi.buffer_id = 77 if (p1 + p2) % 3 == 0 else None
                 core.openflow.raiseEventNoErrors(self.ofmod.PacketIn, cons[d2], pi)
             elif k == "sweep":
-                self.expire_cb()
+                if timer_alive[0] and self.expire_cb() is False and self.expire_selfstop: timer_alive[0] = False
             elif k == "pstate":
                 # the switch reports a change of carrier on a port: the controller's port table is updated, then PortStatus is raised
                 con = cons[op["dpid"]]; pp = con.ports[op["port"]]
@@ -876,6 +1074,127 @@ class C19(Check):
             steps.append(st)
         adjacency = [[list(l), int(round((t - 1000.0) * 1000))] for l, t in D.adjacency.items()]
         return {"steps": steps, "adjacency": adjacency}
+
+    # -- live: nothing is called by hand.  Scheduler.cycle() (real) runs whatever is ready; the virtual hub wakes sleeping tasks (the
+    #    components' Timers) when the virtual clock reaches their time; probes sent by LLDPSender cross the cables of the topology.
+    GRID = 8                                   # frames arrive at the next multiple of 1/8 s (latency < 125 ms): every time Discovery sees is exact in ms
+    MAX_DISPATCH = 40000
+
+    def _settle(self):
+        n = 0
+        while True:
+            while self.sched.cycle():
+                n += 1
+                if n > 5000: raise RuntimeError("tasks keep each other ready for ever")
+            if not self.hub.poll_io(): return
+
+    def _impl_live(self, case):
+        buf = io.StringIO()
+        with contextlib.redirect_stdout(buf):                          # Scheduler.cycle() prints when a task dies of an exception
+            out = self._impl_live2(case)
+        out["tasks_died"] = buf.getvalue().count("caused an exception")
+        return out
+
+    def _impl_live2(self, case):
+        of, core, D, hub, clock = self.of, self.core, self.D, self.hub, poxenv.clock
+        sw = {int(d): ps for d, ps in case["topo"]["switches"].items()}
+        peer = {}
+        for i, (a, b) in enumerate(case["topo"]["cables"]):
+            peer[tuple(a)] = (i, 0, tuple(b)); peer[tuple(b)] = (i, 1, tuple(a))
+        cut, muted, cons, bits, trace = set(), set(), {}, {}, []
+        T0 = 1000.0
+        ms = lambda: int(round((clock.now - T0) * 1000))
+        count = [0]
+
+        def deliver(l, data):
+            con = cons.get(l[2])
+            if con is None or l[2] in muted: return
+            pi = of.ofp_packet_in(in_port=l[3], data=data)
+            pi.buffer_id = 77 if (l[1] + l[3]) % 3 == 0 else None
+            core.openflow.raiseEventNoErrors(self.ofmod.PacketIn, con, pi)
+            self._settle(); flush("probe", {"l": list(l)}, True)
+
+        def drain(con):
+            mods = []
+            for raw in con.sent:
+                for typ, mb in wire_msgs(of, raw):
+                    if typ == of.OFPT_PACKET_OUT:
+                        po = of.ofp_packet_out(); po.unpack(mb)
+                        if not (po.actions and po.data) or con.dpid in muted: continue
+                        end = (con.dpid, po.actions[0].port)
+                        if end not in peer or (peer[end][0], peer[end][1]) in cut: continue
+                        l = end + peer[end][2]
+                        when = T0 + math.ceil((clock.now - T0) * self.GRID) / float(self.GRID)
+                        hub.at(when, lambda l=l, data=po.data: deliver(l, data))
+                    elif typ == of.OFPT_PORT_MOD:
+                        m = port_mod_of(of, mb)
+                        if m.mask & of.OFPPC_NO_FLOOD and m.port_no in con.ports and m.hw_addr == con.ports[m.port_no].hw_addr:
+                            bits[(con.dpid, m.port_no)] = (m.config & of.OFPPC_NO_FLOOD) == 0
+                        mods.append([con.dpid, m.port_no, (m.config & of.OFPPC_NO_FLOOD) == 0])
+            del con.sent[:]
+            return mods
+
+        def flush(kind, extra=None, force=False):
+            mods = []
+            for con in list(cons.values()): mods += drain(con)
+            if self._events or mods or force:
+                e = {"k": kind, "t": ms(), "events": copy.deepcopy(self._events), "mods": sorted(mods),
+                     "order": (self._orders[0] if self._orders else [])}
+                if extra: e.update(extra)
+                if self._events:
+                    e["snap"] = {"adj": sorted(list(l) for l in D.adjacency), "bits": sorted([d, p, b] for (d, p), b in bits.items()),
+                                 "up": sorted(cons)}
+                trace.append(e)
+            del self._events[:]; del self._orders[:]
+
+        def run_until(t_end):
+            while True:
+                due = hub.next_due()
+                if due is None or due > t_end: break
+                count[0] += 1
+                if count[0] > self.MAX_DISPATCH: raise RuntimeError("more than %d wake-ups in one case" % self.MAX_DISPATCH)
+                when, fn, task = hub.pop()
+                if when > clock.now: clock.now = when
+                if fn is not None: fn()
+                else:
+                    hub._return(task, ([], [], []))
+                    self._settle(); flush("wake")
+            if t_end > clock.now: clock.now = t_end
+
+        for a, kw in self.ctor_timers: self.RT(*a, **kw)                 # the timers the components made when they were constructed: made anew, now
+        self._settle(); flush("wake")                                   # ... and they go to sleep
+        for op in self._norm_ops(case):
+            k = op["k"]
+            if k == "run":
+                run_until(clock.now + op["dt"] / 1000.0)
+                trace.append({"k": "obs", "t": ms(), "adj": sorted(list(l) for l in D.adjacency), "events": [], "mods": []})
+                continue
+            if k == "up":
+                d = int(str(op["dpid"]))
+                con = StubCon(of, d, sw[d], clock())
+                cons[d] = con
+                for key in [key for key in bits if key[0] == d]: del bits[key]
+                core.openflow._connect(con)
+                core.openflow.raiseEventNoErrors(self.ofmod.ConnectionUp, con, con.features)
+            elif k == "down":
+                con = cons.pop(op["dpid"])
+                muted.discard(op["dpid"])
+                core.openflow._disconnect(con.dpid)
+                core.openflow.raiseEventNoErrors(self.ofmod.ConnectionDown, con)
+            elif k in ("cut", "mend"):
+                for dr in ((0, 1) if op["dir"] == 2 else (op["dir"],)):
+                    (cut.add if k == "cut" else cut.discard)((op["i"], dr))
+            elif k == "mute": muted.add(op["dpid"])
+            elif k == "unmute": muted.discard(op["dpid"])
+            elif k == "pstate":
+                con = cons[op["dpid"]]; pp = con.ports[op["port"]]
+                pp.state = (pp.state | of.OFPPS_LINK_DOWN) if op["down"] else (pp.state & ~of.OFPPS_LINK_DOWN)
+                core.openflow.raiseEventNoErrors(self.ofmod.PortStatus, con, of.ofp_port_status(reason=of.OFPPR_MODIFY, desc=pp))
+            self._settle()
+            flush(k, {x: op[x] for x in op if x != "k"}, True)
+            run_until(clock.now)                                        # frames that arrive without delay (the clock is on the grid)
+        adjacency = [[list(l), int(round((t - T0) * 1000))] for l, t in D.adjacency.items()]
+        return {"trace": trace, "adjacency": adjacency, "wakeups": count[0]}
 
     def _packet_in(self, frame):
         class AllKnown(type(self.real_conns)):
@@ -975,7 +1294,39 @@ class C19(Check):
                 elif kk == "probe": ops.append({"k": "probe", "l": op["from"] + op["to"], "order": st["order"]})
                 elif kk == "pstate": ops.append({"k": "tick", "dt": 0})     # carrier is no input of discovery's adjacency or of _update_tree
             return {"op": "history", "variant": self.variant, "ops": ops}
+        if k == "live":
+            return {"op": "timed", "variant": self.variant, "ops": self._live_model_ops(case, obs)[0]}
         return None
+
+    def _live_model_ops(self, case, obs):
+        """the timed history the run amounts to, for the model: things that happened (up / down / a probe that arrived) and time
+        passing in between.  The expiry sweeps are NOT taken from the run: the model fires them itself while it waits (its timer is
+        the contract of recoco.Timer.run applied to what _expire_links returns).  What the implementation's timer wake-ups made visible
+        at a time t is compared with what the model's wait ending at t produced.  Waits are cut at every multiple of the check period, so
+        each holds at most one sweep (its `order` comes from the wake-up seen at that time, if any)."""
+        sw = {int(d): ps for d, ps in case["topo"]["switches"].items()}
+        ops, views, cur = [], [], [0]
+        none = {"events": [], "mods": []}
+        def advance(t, view=None, order=()):
+            if cur[0] == t and view is not None:
+                ops.append({"k": "wait", "dt": 0, "order": list(order)}); views.append(view)
+            while cur[0] < t:
+                end = min((cur[0] // PERIOD_MS + 1) * PERIOD_MS, t)
+                mine = view is not None and end == t
+                ops.append({"k": "wait", "dt": end - cur[0], "order": list(order) if mine else []})
+                views.append(view if mine else none)
+                cur[0] = end
+        for e in obs["trace"]:
+            k = e["k"]
+            v = {"events": e["events"], "mods": e["mods"]}
+            if k == "wake": advance(e["t"], v, e["order"]); continue
+            advance(e["t"])
+            if k == "up": ops.append({"k": "up", "dpid": e["dpid"], "ports": sw[e["dpid"]]}); views.append(v)
+            elif k == "down": ops.append({"k": "down", "dpid": e["dpid"], "order": e["order"]}); views.append(v)
+            elif k == "probe": ops.append({"k": "probe", "l": e["l"], "order": e["order"]}); views.append(v)
+            elif e["events"] or e["mods"]:                       # cut / mend / mute / carrier: nothing may follow from them at once
+                ops.append({"k": "wait", "dt": 0, "order": e["order"]}); views.append(v)
+        return ops, views
 
     def impl_view(self, case, obs):
         k = case["kind"]
@@ -996,6 +1347,8 @@ class C19(Check):
             return [self.impl_view({"kind": "calc"}, it) for it in obs["items"]]
         if k == "hist":
             return {"steps": [{"events": s["events"], "mods": s["mods"]} for s in obs["steps"]], "adjacency": obs["adjacency"]}
+        if k == "live":
+            return {"steps": self._live_model_ops(case, obs)[1], "adjacency": obs["adjacency"]}
         return obs
 
     def model_obs(self, case, resp):
@@ -1017,7 +1370,7 @@ class C19(Check):
             return v
         if k == "calcseq":
             return [self.model_obs({"kind": "calc"}, r) for r in resp["resps"]]
-        if k == "hist":
+        if k in ("hist", "live"):
             return {"steps": [{"events": o["events"], "mods": sorted(o["mods"])} for o in resp["outs"]], "adjacency": resp["adjacency"]}
         return resp
 
@@ -1130,6 +1483,70 @@ class C19(Check):
             low += lo
         return low[0] if low else None
 
+    def _oracle_live(self, case, obs):
+        """the property on a timer-driven run.  What the harness knows for certain: which probes crossed which cable when (it carried
+        them), which switches were connected, muted, which cable directions were cut.  Demanded at every moment the adjacency is seen
+        (after every change of it, and at the end of every `run`):
+          * a link a probe crossed less than the link timeout ago (both ends connected since) is in it;
+          * a link no probe crossed since its switches connected is not in it (the links of a disconnected switch are withdrawn at once);
+          * a link no probe has crossed for more than link timeout + check period is not in it (the links of a silent switch are withdrawn);
+          * when nothing was done to the network for timeout + check period, every cable direction that works is in it (discovered,
+            and kept: the send cycle goes on);
+        the LinkEvent stream alternates per link; after every change of the adjacency the flood bits are right."""
+        sw = {int(d): ps for d, ps in case["topo"]["switches"].items()}
+        cables = case["topo"]["cables"]
+        died = obs.get("tasks_died", 0)
+        note = " [%d task(s) of the scheduler died of an exception]" % died if died else ""
+        last = {}
+        for e in obs["trace"]:
+            for added, l in e["events"]:
+                l = tuple(l)
+                if last.get(l, False) == added:
+                    return "events: link %s announced %s twice in a row" % (l, "added" if added else "removed (or removed first)")
+                last[l] = added
+        up, muted, cut, seen, quiet, low = set(), set(), set(), {}, 0, []
+        for e in obs["trace"]:
+            k, t = e["k"], e["t"]
+            if k == "up": up.add(e["dpid"]); quiet = t
+            elif k == "down":
+                up.discard(e["dpid"]); muted.discard(e["dpid"]); quiet = t
+                for l in [l for l in seen if l[0] == e["dpid"] or l[2] == e["dpid"]]: del seen[l]
+            elif k in ("cut", "mend"):
+                for dr in ((0, 1) if e["dir"] == 2 else (e["dir"],)): (cut.add if k == "cut" else cut.discard)((e["i"], dr))
+                quiet = t
+            elif k == "mute": muted.add(e["dpid"]); quiet = t
+            elif k == "unmute": muted.discard(e["dpid"]); quiet = t
+            elif k == "pstate": quiet = t
+            elif k == "probe":
+                l = tuple(e["l"])
+                if l[0] in up and (l[0], l[1]) != (l[2], l[3]): seen[l] = t
+            adj = e["snap"]["adj"] if "snap" in e else e.get("adj")
+            if adj is None: continue
+            have = {tuple(l) for l in adj}
+            for l, a in sorted(seen.items()):
+                if l not in have and t <= a + TIMEOUT_MS:
+                    return ("adjacency: missing link %s at %d ms: a probe crossed it at %d ms, less than the link timeout ago, and both its switches "
+                            "have been connected since%s" % (l, t, a, note))
+            for l in sorted(have):
+                if l not in seen:
+                    return "adjacency: phantom link %s at %d ms: no probe has crossed it since its switches connected%s" % (l, t, note)
+                if t > seen[l] + TIMEOUT_MS + PERIOD_MS:
+                    return ("adjacency: stale link %s is still there at %d ms, %d ms after the last probe crossed it: the links of a silent switch must be "
+                            "withdrawn (link timeout %d ms, expiry check every %d ms)%s" % (l, t, t - seen[l], TIMEOUT_MS, PERIOD_MS, note))
+            if k == "obs" and t - quiet >= TIMEOUT_MS + PERIOD_MS:
+                for i, (a, b) in enumerate(cables):
+                    for dr, (x, y) in enumerate(((a, b), (b, a))):
+                        l = tuple(x) + tuple(y)
+                        if (i, dr) not in cut and x[0] in up and y[0] in up and x[0] not in muted and y[0] not in muted and l not in have:
+                            return ("adjacency: undiscovered link %s at %d ms: the cable works in that direction, both switches are connected and "
+                                    "nothing was done to the network for %d ms%s" % (l, t, t - quiet, note))
+            if "snap" in e:
+                hard, lo = self._flood_check([tuple(l) for l in e["snap"]["adj"]], {(d, p): b for d, p, b in e["snap"]["bits"]},
+                                             e["snap"]["up"], sw, "timer" if k == "wake" else k)
+                if hard: return hard
+                low += lo
+        return low[0] if low else None
+
     def _flood_check(self, adj, bits, up, sw, opname):
         """the statement of flood_ports / flood_bits / flood_keeps on the switch-side port config `bits` (a port that was never sent a
         port_mod on its connection floods): (hard failure or None, failures on switches outside the tree)"""
@@ -1180,10 +1597,11 @@ class C19(Check):
         k = case["kind"]
         if k == "calc": return bool(obs.get("tree"))
         if k == "hist": return any(not a for st in obs["steps"] for a, _ in st["events"])
+        if k == "live": return any(not a for e in obs["trace"] for a, _ in e["events"])
         return True
 
     def shrink_candidates(self, case):
-        if case["kind"] == "hist":
+        if case["kind"] in ("hist", "live"):
             ops = case["ops"]
             for n in (8, 4, 2, 1):
                 for i in range(0, len(ops), n):
